@@ -122,6 +122,8 @@ typedef struct xc_procvec { xc_opaque **items; size_t count; } xc_procvec;     /
 """
 MLP_POST = r"""
 static bool xc_proc_ForceFlush(const xc_opaque *p, long timeout) { bool r; if (g_ff_calls == g_k) g_ff_proc_k = (unsigned long)p; g_ff_calls++; if (!r) g_all_ok = 0; return r; }
+unsigned long g_sdl_calls; unsigned long g_sdl_proc_k;
+static bool xc_proc_Shutdown_k(const xc_opaque *p, long timeout) { bool r; if (g_sdl_calls == g_k) g_sdl_proc_k = (unsigned long)p; g_sdl_calls++; return r; }
 """
 
 
@@ -133,6 +135,7 @@ def _mlp_types(em, base, targs, name):
 
 def _configure_mlp(cfg):
     configure(cfg)
+    cfg.ext_q["LogRecordProcessor::Shutdown"] = lambda em, node, recv, args: "xc_proc_Shutdown_k(%s, %s)" % (em.expr((recv["node"] if isinstance(recv, dict) and recv.get("xc_is_ptr") else recv)), em.expr(args[0]))
     cfg.type_handlers.insert(0, _mlp_types)
     if not hasattr(cfg, "seq_handlers"):
         cfg.seq_handlers = {}
@@ -168,6 +171,19 @@ contracts_mlp = {MLP: {"pre":
                  "__CPROVER_loop_invariant(xc_i1 <= self->processors_.count && g_ff_calls == xc_i1 && (result != 0) == (g_all_ok != 0))\n"
                  "__CPROVER_loop_invariant((g_k < xc_i1) ==> g_ff_proc_k == (unsigned long)self->processors_.items[g_k])\n"
                  "__CPROVER_decreases(self->processors_.count - xc_i1)\n"}}}
+MLS = "MultiLogRecordProcessor_Shutdown"
+contracts_mlp[MLS] = {"pre":
+    "__CPROVER_requires(timeout >= 0 && g_sdl_calls == 0 && __CPROVER_is_fresh(self, sizeof(*self)) && self->processors_.count <= 64 && __CPROVER_is_fresh(self->processors_.items, self->processors_.count * sizeof(xc_opaque *)))\n"
+    "__CPROVER_assigns(g_sdl_calls, g_sdl_proc_k)\n"
+    # every registered processor is shut down exactly once, in order, whatever the earlier ones answered and however much of the timeout they used; no flush
+    "__CPROVER_ensures(g_sdl_calls == self->processors_.count && (g_k < self->processors_.count ==> g_sdl_proc_k == (unsigned long)self->processors_.items[g_k]))\n"
+    "__CPROVER_ensures(g_ff_calls == __CPROVER_old(g_ff_calls))\n",
+    "loops": {1: "__CPROVER_assigns(xc_i1, result, start_time, timeout_ns, g_sdl_calls, g_sdl_proc_k)\n"
+                 "__CPROVER_loop_invariant(xc_i1 <= self->processors_.count && g_sdl_calls == xc_i1)\n"
+                 "__CPROVER_loop_invariant((g_k < xc_i1) ==> g_sdl_proc_k == (unsigned long)self->processors_.items[g_k])\n"
+                 "__CPROVER_decreases(self->processors_.count - xc_i1)\n"}}
+_pms = Proof("MultiLogRecordProcessor_Shutdown", [("MultiLogRecordProcessor::Shutdown", 1)], enforce=MLS, timeout=300,
+             desc="fan-out of Shutdown for any number of log processors: every registered processor exactly once, in order")
 _pm = Proof("MultiLogRecordProcessor_ForceFlush", [("MultiLogRecordProcessor::ForceFlush", 1)], enforce=MLP, timeout=300,
             desc="fan-out of ForceFlush for any number of processors: every processor once, success exactly when all succeed")
 _pm.tu = TU_MLP
@@ -177,6 +193,13 @@ _pm.configure = _configure_mlp
 _pm.own_config = True
 _pm.contracts = contracts_mlp
 proofs.append(_pm)
+_pms.tu = TU_MLP
+_pms.pre_c = MLP_PRE
+_pms.post_struct_c = MLP_POST
+_pms.configure = _configure_mlp
+_pms.own_config = True
+_pms.contracts = contracts_mlp
+proofs.append(_pms)
 
 
 LOG_SRCS = ["sdk/src/logs/multi_log_record_processor.cc", "sdk/src/logs/multi_recordable.cc", "sdk/src/logs/read_write_log_record.cc", "sdk/src/logs/readable_log_record.cc",
